@@ -36,6 +36,12 @@ CHECKS = {
  "C13": dict(cat="exploration", ref="DESIGN.md 3 (C13)", technique="seeded operation histories with bit-exact state fingerprints, cross-mutation of results and inputs, and never-used-twin comparison (history independence)",
    text="histories of 2..8 calls over the public surface of io, transform, gate, stats, mef, plot and FCSData (enumerated at run time) on a pool of loaded / converted / sliced samples and plain arrays; every argument (incl. caller-owned bins lists, population lists, parameter dicts and their element identities) and every pool object fingerprinted bit-exactly before and after each call, also when it raises; sample results cross-mutated with inputs; every answer compared with a freshly built twin; thorough also walks ordered pairs of calls on one object.",
    note="trusted: models/fingerprint.py; buffer file position not fingerprinted; lists handed out by accessors may alias stored state (the property speaks about samples)"),
+ "C11": dict(cat="fault_enumeration", ref="DESIGN.md 3 (C11)", technique="deterministic simulation of fault sequences over a batch (row faults incl. ENOENT injected at the open seam), healthy rows refined against their single-row runs",
+   text="generated experiments over synthetic FCS files on the simulated disk; each bead / cell-sample row carries no fault or one of the documented fault kinds at seeded positions and orders; no exception may escape, keys follow the table, faulted rows hold an error and get an ERROR: note with empty statistics and no histogram rows, every other row is bit-identical (values, dtype, all metadata, statistics) to its single-row run with the same calibration objects; empty tables give empty results.",
+   note="trusted: models/fingerprint.py; bead clustering is the real GMM with the global RNG re-seeded per row by the simulator (~70%) or a label-oracle stub (~30%); rows that fail for an undocumented reason are only required to fail identically alone"),
+ "C10": dict(cat="exploration", ref="DESIGN.md 3 (C10)", technique="seeded end-to-end refinement of the batch orchestration against an executable hand composition of the documented steps (fault-free arm of the batch simulator)",
+   text="generated fault-free experiments (units in all documented spellings, integer and float data, 0..2 bead rows); every returned sample bit-identical to the hand composition of the documented steps with the calibration functions the real bead processing returned; every statistics column equals FlowCal.stats on that sample (geometric ones on positive events, note iff needed); every histogram row equals np.histogram over the library bin edges and sums to the events inside them.",
+   note="trusted: models/pipeline_ref.py (public library calls only); either histogram scale accepted for letter-case variants of 'channel'; calibration accuracy itself (C02) not claimed"),
 }
 def main():
     checks = []
